@@ -138,6 +138,19 @@ def run(chk, repo, tier):
                 det = f'summand coeffs[{fmt(k)}] * zernike(index={fmt(b.get("index"))}, normalize={fmt(b.get("normalize"))}, ' \
                       f'rho={fmt(b.get("rho"))}, theta={fmt(b.get("theta"))})'
     chk.ob('C12-d', 'N-index', fcomp.key, 'coefficient k <-> Noll index k+1', ok, det, fcomp.loc())
+    # every term of the composition is a coefficient times the mode as `zernike` evaluates it (boolean support, caller's
+    # coordinates and normalisation) - the modes the fit projects onto: a term built some other way (piston as coeff * mask
+    # with the mask's raw values) takes composition and fit apart
+    other, nterm = [], 0
+    for p in returns(paths):
+        for e in p.writes():
+            if e.data.get('how') == 'augassign' and e.in_loop and isinstance(e.data.get('value'), Poly):
+                nterm += 1
+                v = e.data['value']
+                if not [a for a in nf.value_atoms(v) if is_app(a, 'call:zernike.zernike')]:
+                    other.append(f'`+= {fmt(v)[:60]}` at {e.loc()}')
+    chk.ob('C12-d', 'D-flow', fcomp.key, 'every term of a composition is coefficient x zernike(mask, index, normalize, rho, theta)',
+           (not other) if nterm else None, '; '.join(sorted(set(other))[:2]) or f'{nterm} accumulation(s)', fcomp.loc())
 
     fbas = repo.func('zernike.zernike_basis')
     _, paths, _ = analyse(repo, fbas)
